@@ -3,8 +3,8 @@ CONSTANTS
   KeySeq <- KeySeq3
   Vals <- Vals3
   Acts <- ActsC03
-  MaxOps = 6
-  DiskInits <- DiskEmpty3
+  MaxOps = 5
+  DiskInits <- DiskAll3
   Contracts <- NoContracts
   Track = TRUE
 VIEW view
